@@ -46,11 +46,11 @@ func (m regexMarshaller) Marshal(name string, regexStr bytes.Bytes) (schema Sche
 	schema.ContentRegexp = strings.TrimPrefix(n.Value, "/")
 	schema.ContentRegexp = strings.TrimSuffix(schema.ContentRegexp, "/")
 
-	example, err := s.Example()
+	example, err := schemaExample(s)
 	if err != nil {
 		return Schema{}, err
 	}
 
-	schema.Example = string(example)
+	schema.Example = example
 	return schema, nil
 }
